@@ -50,6 +50,10 @@ class Timer:
         self.start_time = self.env.now
         self.timeout = timeout
         self.expire_time = self.start_time + timeout
-        if not self.proc.processed:
+        if self.proc is self.env.active_process:
+            # restarted from inside our own callback: run() is still looping and
+            # will sleep until the new expire_time
+            return
+        if self.proc.is_alive:
             self.proc.interrupt("restart timer")
             self.proc = self.env.process(self.run(self.env))
